@@ -61,7 +61,14 @@ RULE = ("(A) histories of 40-320 ops (LCD-window accesses) from a deterministic 
         "underneath both LCD windows; 1/6 of the Python machine histories present low-window addresses 0x2010-0x2FFF "
         "unfolded; every step (Python: every write group) compared model/Python/Rust; the write-only "
         "projection of every clean history is replayed from power-on through replay_operations() and a fresh "
-        "LCDPipeline().replay(). Non-trivial = on BOTH chips "
+        "LCDPipeline().replay(); bystander operations (round 5): 1/3 of the histories carry 1-4 (+ a `write; bystander; "
+        "poll; poll` sandwich per chip in half of them) operations on the live LCD that are NOT window accesses, half of "
+        "them placed directly behind a write -- public observers (get_snapshot/export_snapshot, get_display_buffer/"
+        "display_buffer, statistics accessors, PCE500Emulator.save_snapshot / CoreRuntime::save_snapshot of the whole "
+        "machine) and load_snapshot of a foreign snapshot with one generated defect (payload size 0..2100 != 1024 with "
+        "well-formed geometry, wrong pages/width, wrong chip_count, missing header field) that the implementation itself "
+        "refuses -- after which registers, VRAM and busy must still be those of the access history (a bystander is "
+        "non-trivial when a chip is BUSY / holds non-power-on state at that moment). Non-trivial = on BOTH chips "
         "the column counter wrapped 63->0 or a data read followed a set-Y; distinct = hash of the op list + path options. "
         "(B) complete enumeration of the 8192 VRAM bits per (model, base VRAM pattern, start lines) configuration, "
         "plus two multi-bit data writes per VRAM byte; non-trivial = the probe changed at least one pixel.")
@@ -105,6 +112,11 @@ ASSUMPTIONS = [
     "for a data write is asserted only when the chip's start line is a multiple of 8 (otherwise a byte legitimately "
     "straddles the upper/lower half, i.e. two display columns, and only '<= 8 pixels' is asserted)",
     "Rust display-write capture (display-mapped coordinates) is compared with display_buffer() only at start line 0",
+    "bystander operations: the statement makes the chips' state and every read value a function of the sequence of "
+    "window reads/writes, so an operation that is not such an access (observing through the public surface, saving a "
+    "machine snapshot, a snapshot restore that the implementation itself refuses with Err / an exception) must leave "
+    "registers, VRAM and busy untouched; whether a restore was refused is taken from the implementation's own answer; "
+    "a restore it accepts is C16's subject and ends the history unjudged (label bystander:restore-accepted)",
 ]
 
 
@@ -995,7 +1007,9 @@ def attribute_paths(viols: List[Violation], opts: Dict[str, Any]) -> List[Violat
             base = case_opts(v.case)
             side = tag.split("[", 1)[0]
             if side == "py":
-                if base["py_via"] in ("emulator", "cpu"):
+                if base["py_via"] == "cpu":
+                    base.update(py_via="emulator")  # the same machine without the CPU in front of the bus
+                elif base["py_via"] == "emulator":
                     base.update(py_via="bus")
                 else:
                     base.update(py_via="controller", group=1, observe_at=0)
